@@ -1355,6 +1355,11 @@ func textCases(r *hx.Rng, nRandom int) []string {
 		" 7\xc2", "\xc27 ", "\xe2\x80 7", "7 \xe2\x80", "7\xe2\x80\xa8", "7\xe2\x80\xa7", "\xe2\x81\x9f7", "\xe2\x81\x9e7", "\xe1\x9a\x807", "\xe1\x9a\x817"} {
 		add(t)
 	}
+	for _, w := range []string{"true", "false", "yes", "no", "on", "off", "y", "n", "1", "0", "t", "f", "TRUE", "True", "tRuE", "YES", "Off", "N", "truee", "ye s", "İ", "K", "ON\u00a0", "\u2003Yes"} {
+		add(w)
+		add(" " + w + "\t")
+		add(strings.ToUpper(w))
+	}
 	alphabet := []byte("0123456789012345678901234567890123456789+-_ \t.exXaAfF")
 	for i := 0; i < nRandom; i++ {
 		switch r.Intn(3) {
@@ -1406,7 +1411,17 @@ func optU(u uint64, err error) string {
 // pkg/coerce makes, plus ParseInt/ParseUint at the narrower widths).
 func textObs(s string) string {
 	t := strings.TrimSpace(s)
-	parts := []string{"p", hexOrDash(t)}
+	nm := "n*"
+	ascii := true
+	for i := 0; i < len(t); i++ {
+		if t[i] >= 0x80 {
+			ascii = false
+		}
+	}
+	if ascii {
+		nm = "n" + hexOrDash(strings.ToLower(t))
+	}
+	parts := []string{"p", hexOrDash(t), nm}
 	for _, w := range []int{8, 16, 32, 64} {
 		parts = append(parts, optI(strconv.ParseInt(t, 10, w)))
 	}
